@@ -433,7 +433,8 @@ def sentinel_of(x):
 
 
 def one_unsigned_dtype(nonNone):
-    return bool(nonNone) and all(isinstance(e, np.unsignedinteger) for e in nonNone) and len({e.dtype for e in nonNone}) == 1
+    uns = [e for e in nonNone if isinstance(e, np.unsignedinteger) or (isinstance(e, np.ndarray) and e.dtype.kind == "u")]
+    return bool(nonNone) and len(uns) == len(nonNone) and len({e.dtype for e in uns}) == 1
 
 
 def has_skippable_entry(entries):
